@@ -1124,6 +1124,56 @@ class Tie:
             except (IndexError, KeyError, ValueError) as e:
                 self.report(replay, "I/O fault injection: unparsable output (%r)" % (e,), no_input=True)
 
+    def phase_reinit(self):
+        """one ZSTD_seekable object initialised again and again (valid archive, archive with a damaged seek table, valid again):
+        a failed init must leave the object usable and freeable, a later successful init must read back the content"""
+        ctx, rng = self.ctx, self.rng
+        x = bytes((7 * i + 3) & 255 for i in range(60))
+        xp = self.blob(x, "x")
+        for k, (cf, dmg) in enumerate(((0, "magic"), (1, "count"), (0, "descr"), (1, "magic"))):
+            ap = self.path("rei%d.zst" % k)
+            # archive layout: ... seek table = skippable frame whose last 9 bytes are numFrames(4) descriptor(1) magic(4)
+            head = ["content_file %s" % xp, "cinit 3 %d 16" % cf, "finish 1000 1000", "save %s" % ap, "open mem", "r 5 20", "xpos"]
+            rc0, cl0, _ = self.run_c("\n".join(head) + "\nclose\n", timeout=30, linebuf=True)
+            alen = None
+            for l in cl0:
+                if l.startswith("save"):
+                    try:
+                        alen = int(kv(l)[2].get("n", "0"))
+                    except Exception:
+                        alen = None
+            if not alen:
+                try:
+                    alen = os.path.getsize(ap)
+                except OSError:
+                    continue
+            pos = {"magic": alen - 1, "count": alen - 9, "descr": alen - 5}[dmg]
+            bad = {"magic": "00", "count": "ff", "descr": "7f"}[dmg]
+            text = head + ["setbytes %d %s" % (pos, bad), "reopen", "r 0 5", "archive_file %s" % ap, "reopen", "r 5 20", "r 0 60", "close"]
+            rc, cl, cerr = self.run_c("\n".join(text) + "\n", timeout=30, linebuf=True)
+            replay = dict(kind="reinit", content_hex=x.hex(), cf=cf, damage=dmg, commands=text, rc=rc, seed=ctx.seed)
+            rl = [l for l in cl if l.startswith("r ")]
+            ro = [l for l in cl if l.startswith("reopen")]
+            try:
+                if rc != 0 or len(ro) != 2 or len(rl) != 4:
+                    raise Fail("crash / abort (rc=%d) when a ZSTD_seekable object is initialised again after an init that failed on a damaged seek table (%s): %s"
+                               % (rc, dmg, (cerr or "")[-300:]))
+                if "E" not in kv(ro[0])[2].get("ret", "E"):
+                    pass      # the damage happened to leave a loadable table: nothing to say
+                if kv(ro[1])[2].get("ret", "E").startswith("E"):
+                    raise Fail("a valid archive is refused by an object whose previous init failed (%s)" % dmg)
+                for ln, (off, n) in zip(rl[2:], ((5, 20), (0, 60))):
+                    d = kv(ln)[2]
+                    want = x[off:off + n]
+                    okdata = (d["data"] == want.hex()) if "data" in d else (d.get("crc") == "%08x" % (zlib.crc32(want) & 0xFFFFFFFF))
+                    if d["ret"] != str(n) or not okdata:
+                        raise Fail("after re-initialisation on the valid archive decompress(dst, %d, %d) returns %s / %s" % (n, off, d["ret"], d.get("data", "-")[:60]))
+                ctx.count(("reinit", cf, dmg))
+            except Fail as e:
+                self.report(replay, "re-initialisation: " + str(e))
+            except (IndexError, KeyError, ValueError) as e:
+                self.report(replay, "re-initialisation: unparsable output (%r)" % (e,), no_input=True)
+
     def phase_maxframes(self):
         """ZSTD_seekable_logFrame refuses the (MAXFRAMES+1)-th frame (hypothesis 'lenN log <= MAXFRAMES' of the table theorems is
         enforced by the code): direct oracle on the real code, 2^27 log entries (1.6 GB, ~1 s); the model's log_frame has the
@@ -1306,6 +1356,8 @@ def replay(ctx):
         t.phase_maxframes()
     elif kind == "io-fault":
         t.phase_io_fault()
+    elif kind == "reinit":
+        t.phase_reinit()
     elif kind == "corrupt" and rp.get("archive_hex") is not None:
         v = dict(s=None, arch=bytes.fromhex(rp["archive_hex"]), cls="J", note=rp.get("note", ""), log=[], cf=0, id="k0", mode=rp.get("mode") or "mem",
                  reads=[tuple(r) for r in rp.get("reads", [])])
@@ -1337,7 +1389,7 @@ def run(ctx):
     r = ctx.prove()
     t = Tie(ctx, rng)
     import time as _time
-    for ph in (t.phase_rawtable, t.phase_overlong_frame, t.phase_short_frame, t.phase_io_fault, t.phase_archives, t.phase_corrupt, t.phase_maxframes):
+    for ph in (t.phase_rawtable, t.phase_overlong_frame, t.phase_short_frame, t.phase_io_fault, t.phase_reinit, t.phase_archives, t.phase_corrupt, t.phase_maxframes):
         t0 = _time.time()
         ph()
         core.log("C20 %s: %.1fs (evaluations so far %d)" % (ph.__name__, _time.time() - t0, ctx.cov["evaluations"]))
